@@ -184,6 +184,14 @@ func runC04(c *core.Ctx) {
 		}
 	}
 	menu := []time.Duration{g, time.Nanosecond, g / 2, g - time.Nanosecond}
+	// the agent's timer never sleeps longer than the smallest non-zero of {disconnected, failed timeout, 2 s}
+	// (public configuration / documented keepalive default); the deadline is evaluated at those ticks
+	tickBound := 2 * time.Second
+	for _, v := range []time.Duration{da, fa, db, fb} {
+		if v != 0 && v < tickBound {
+			tickBound = v
+		}
+	}
 
 	afterStep := func(pureAdvance bool) {
 		ticks := map[*c04Agent][]time.Duration{}
@@ -258,6 +266,13 @@ func runC04(c *core.Ctx) {
 			} else if len(ticks[x]) > 1 {
 				c.Probe("multi-tick-step")
 			}
+			// independent of ticks: an agent that sits in Checking without a selection must have failed once the
+			// checking deadline plus two check intervals have passed (the deadline is evaluated at check ticks)
+			if !x.closed && now == ice.ConnectionStateChecking && selNow == nil && x.checkDL != 0 &&
+				c.Now()-x.checkingFrom > x.checkDL+2*tickBound+ci {
+				c.Failf("C04/checking-deadline-never-fires", "%s still Checking %v after entering Checking (deadline %v, check interval %v)",
+					x.h.Name, c.Now()-x.checkingFrom, x.checkDL, tickBound)
+			}
 			x.prevState = now
 			x.prevSel = selNow
 		}
@@ -305,21 +320,27 @@ func runC04(c *core.Ctx) {
 				}
 				d.S.Settle()
 				c.Fault("restart")
-				for _, ag := range []*rig.AgentH{d.A, d.B} {
-					if err := d.Gather(ag); err != nil {
-						c.Failf("harness/gather", "%v", err)
-						return
+				if c.T.Bias(1, 3, "restart-bare") {
+					// a restart after which nothing else happens (signalling lost, peer gone): the agents sit in
+					// Checking with no candidates and must still run into their checking deadline
+					c.Fault("restart-without-regather")
+				} else {
+					for _, ag := range []*rig.AgentH{d.A, d.B} {
+						if err := d.Gather(ag); err != nil {
+							c.Failf("harness/gather", "%v", err)
+							return
+						}
 					}
+					_ = d.A.A.SetRemoteCredentials(d.B.Ufrag, d.B.Pwd)
+					_ = d.B.A.SetRemoteCredentials(d.A.Ufrag, d.A.Pwd)
+					for _, cand := range d.A.LocalCands() {
+						_ = d.Signal(d.A, d.B, cand)
+					}
+					for _, cand := range d.B.LocalCands() {
+						_ = d.Signal(d.B, d.A, cand)
+					}
+					d.S.Settle()
 				}
-				_ = d.A.A.SetRemoteCredentials(d.B.Ufrag, d.B.Pwd)
-				_ = d.B.A.SetRemoteCredentials(d.A.Ufrag, d.A.Pwd)
-				for _, cand := range d.A.LocalCands() {
-					_ = d.Signal(d.A, d.B, cand)
-				}
-				for _, cand := range d.B.LocalCands() {
-					_ = d.Signal(d.B, d.A, cand)
-				}
-				d.S.Settle()
 				notes.Take()
 				for _, x := range ags {
 					c04Automaton(c, x)
